@@ -290,6 +290,8 @@ def read_back(path, values):
         frames.append(ent)
     exc = {k: raw.get(k) for k in ("exception_string", "exception_full_string", "exception_class_name", "exception_class_qualname")}
     exc["has_object"] = isinstance(raw.get("exception_object"), BaseException)
+    eo = raw.get("exception_object")
+    exc["object_kind"] = "object" if isinstance(eo, BaseException) else ("placeholder" if isinstance(eo, str) else type(eo).__name__)
     exc["object_args"] = repr(getattr(raw.get("exception_object"), "args", None))
     exc["object_tb_none"] = getattr(raw.get("exception_object"), "__traceback__", None) is None
     exc["traceback_type"] = type(raw.get("traceback")).__name__
